@@ -516,6 +516,13 @@ def run(chk, tier):
             ("Debug", "enum Tree<T> { Leaf(T), Node(Vec<(T, Self)>) }", "Tree<i32>", ""),
             ("Debug", "struct Scene<'a, T> { shape: &'a dyn Shape<T> }", "Scene<'static, i32>", "pub trait Shape<T>: ::core::fmt::Debug {}"),
             ("Debug", "enum Scene<'a, T> { One(&'a mut (dyn Shape<T> + Send)), Two { a: &'a dyn Shape<T>, b: T } }", "Scene<'static, i32>", "pub trait Shape<T>: ::core::fmt::Debug {}"),
+            # ... reached through a path from a path keyword, as the field's own type (it cannot be the deriving type there: third reading, of 7d8fc15)
+            ("Debug", "struct Idd<T>(self::ext::Idd<T>);", "Idd<NoFmt>", "mod ext { pub struct Idd<T>(pub ::core::marker::PhantomData<T>); impl<T> ::core::fmt::Debug for Idd<T> { fn fmt(&self, f: &mut ::core::fmt::Formatter<'_>) -> ::core::fmt::Result { f.write_str(\"x\") } } }"),
+            ("Display", "#[display(\"{_0}\")] struct Idd<T>(self::ext::Idd<T>);", "Idd<NoFmt>", "mod ext { pub struct Idd<T>(pub ::core::marker::PhantomData<T>); impl<T> ::core::fmt::Display for Idd<T> { fn fmt(&self, f: &mut ::core::fmt::Formatter<'_>) -> ::core::fmt::Result { f.write_str(\"x\") } } }"),
+            # ... a reference to a type macro next to a plain field of the same parameter (third reading, of f2e7a21)
+            ("Debug", "struct Pair<'a, T>(&'a IdM!(T), T);", "Pair<'static, i32>", "macro_rules! IdM { ($t:ty) => { $t } }"),
+            ("Debug", "struct Pair<'a, T> { a: &'a mut IdM!(T), b: T, c: &'a &'a IdM!(T) }", "Pair<'static, i32>", "macro_rules! IdM { ($t:ty) => { $t } }"),
+            ("Display", "#[display(\"{_0} {_1}\")] struct Pair<'a, T>(&'a IdM!(T), T);", "Pair<'static, i32>", "macro_rules! IdM { ($t:ty) => { $t } }"),
             # ... the trait object written by a macro in type position (second reading of 0e646ea)
             ("Debug", "struct Scene<'a, T>(&'a Obj!(T));", "Scene<'static, i32>", "pub trait Shape<T>: ::core::fmt::Debug {}\nmacro_rules! Obj { ($t:ty) => { dyn Shape<$t> } }"),
             ("Display", "#[display(\"{_0}\")] struct Scene<'a, T>(&'a mut Obj!(T));", "Scene<'static, i32>", "pub trait Shape<T>: ::core::fmt::Display {}\nmacro_rules! Obj { ($t:ty) => { dyn Shape<$t> + Send } }")):
